@@ -1,6 +1,7 @@
 import dataclasses
 import enum
 import inspect
+import keyword
 import re
 import sys
 import types
@@ -170,7 +171,16 @@ def _get_literal_values_str(typ: Type, short: bool) -> str:
     values_str = []
     for value in get_literal_values(typ):
         if isinstance(value, enum.Enum):
-            values_str.append(f"{type_name(type(value), short)}.{value.name}")
+            enum_name = type_name(type(value), short)
+            if (
+                value.name.isidentifier()
+                and value.name.isascii()
+                and not keyword.iskeyword(value.name)
+            ):
+                values_str.append(f"{enum_name}.{value.name}")
+            else:
+                # a member name is an arbitrary string
+                values_str.append(f"{enum_name}[{value.name!r}]")
         elif isinstance(
             value,
             (int, str, bytes, bool, NoneType),  # type: ignore
